@@ -126,7 +126,11 @@ fn logical_requests(g: &mut Rng, secrets: &HashMap<String, String>) -> Vec<(Stri
     let tagging = "<Tagging xmlns=\"http://s3.amazonaws.com/doc/2006-03-01/\"><TagSet><Tag><Key>k&amp;1</Key><Value> v </Value></Tag><Tag><Key>k2</Key><Value>é</Value></Tag></TagSet></Tagging>";
     let delete = "<Delete><Object><Key>a</Key></Object><Object><Key>b/c</Key><VersionId>v1</VersionId></Object><Quiet>true</Quiet></Delete>";
     let complete = "<CompleteMultipartUpload><Part><ETag>\"e1\"</ETag><PartNumber>1</PartNumber></Part><Part><ETag>\"e2\"</ETag><PartNumber>2</PartNumber></Part></CompleteMultipartUpload>";
+    let create = "<CreateBucketConfiguration xmlns=\"http://s3.amazonaws.com/doc/2006-03-01/\"><LocationConstraint>eu-west-1</LocationConstraint></CreateBucketConfiguration>";
+    let hold = "<LegalHold><Status>ON</Status></LegalHold>";
     for (kind, method, uri, doc) in [
+        ("xml/create-bucket", "PUT", "/bucket1", create),
+        ("xml/put-object-legal-hold", "PUT", "/bucket1/k?legal-hold", hold),
         ("xml/put-bucket-tagging", "PUT", "/bucket1?tagging", tagging),
         ("xml/delete-objects", "POST", "/bucket1?delete", delete),
         ("xml/complete-multipart-upload", "POST", "/bucket1/k?uploadId=u1", complete),
@@ -329,7 +333,7 @@ pub fn run(ctx: &RunCtx) -> i32 {
                     if (!pick_all && si != chosen) || sample_skip() {
                         continue;
                     }
-                    base.framing = Framing { cuts: cuts.clone(), pendings, pending_at_end: at_end, immediate_wake: immediate, error_at: None, stall_at: None };
+                    base.framing = Framing { cuts: cuts.clone(), pendings, pending_at_end: at_end, immediate_wake: immediate, error_at: None, stall_at: None, error_kind: None };
                     base.partition_class = pclass.into();
                     base.schedule_class = sclass.into();
                     judge(&rt, r, &base, Some(&reference));
@@ -376,11 +380,94 @@ pub fn overlap_group(g: &mut Rng, secrets: &HashMap<String, String>) -> (Vec<Str
         let (_, cuts) = g.pick(&parts).clone();
         let scheds = schedules(g, cuts.len() + 1);
         let (_, pendings, at_end, immediate) = g.pick(&scheds).clone();
-        req.framing = Some(Framing { cuts, pendings, pending_at_end: at_end, immediate_wake: immediate, error_at: None, stall_at: None });
+        req.framing = Some(Framing { cuts, pendings, pending_at_end: at_end, immediate_wake: immediate, error_at: None, stall_at: None, error_kind: None });
         kinds.push(kind);
         reqs.push(req);
     }
     (kinds, reqs)
+}
+
+
+/// Transport-fault leg shared by C02 (buffered XML, plain and digest-signed streams), C08 (chunk-signed streams) and C10
+/// (form uploads): the valid logical requests of the chosen body kinds, each with its body failing instead of frame k
+/// (every frame that still has bytes to deliver for small partitions, a sample otherwise) with every kind of transport
+/// error (`TRANSPORT_ERROR_KINDS`).  Oracle: `judge_transport_fault`.
+pub fn transport_fault_leg(ctx: &RunCtx, prop: &'static str, kind_prefixes: &'static [&'static str], n_groups: u64) -> Report {
+    let secrets = secrets(ctx.seed);
+    par_run(ctx.workers, n_groups, |j, r| {
+        let rt = new_runtime();
+        let mut g = Rng::new(derive_seed(ctx.seed, &format!("{prop}-transport-fault"), j));
+        for (kind, req, auth, tokens) in logical_requests(&mut g, &secrets) {
+            // valid instances only (an invalid one is refused anyway), with a body
+            if kind.matches('/').count() > usize::from(kind.starts_with("xml/")) || req.body.is_empty() || !kind_prefixes.iter().any(|p| kind.starts_with(p)) {
+                continue;
+            }
+            let cfg = if auth { auth_cfg(&secrets, HostCfg::None) } else { SvcCfg::default() };
+            // what a complete delivery hands to the backend
+            let (out0, ev0) = run_once(&rt, &cfg, None, &req);
+            let be0 = backend_events(&ev0);
+            if out0.response().is_none_or(|x| x.status >= 300) || be0.len() != 1 {
+                r.inconclusive("fault-free run of a valid logical request did not succeed");
+                continue;
+            }
+            let streamed = !matches!(be0[0].body_end, BodyEnd::NoBody);
+            let payload = be0[0].body.clone();
+            let len = req.body.len();
+            // the part of the body whose loss leaves the upload incomplete: for a form, everything up to the end of the
+            // delimiter that closes the file part (what follows - the closing "--", fields after the file - is ignored
+            // anyway, so a form whose file arrived whole may be taken as complete); for the other kinds, all of it
+            let essential = if kind.starts_with("post-form") { form_essential_len(&req).unwrap_or(len) } else { len };
+            let mut parts = partitions(&mut g, len, &tokens, 12);
+            parts.push(("one-frame", vec![]));
+            g.shuffle(&mut parts);
+            for (pclass, cuts) in parts.into_iter().take(10) {
+                // frame boundaries of this partition
+                let mut starts = vec![0usize];
+                for c in &cuts {
+                    let nx = (starts[starts.len() - 1] + c).min(len);
+                    starts.push(nx);
+                }
+                let n_frames = if *starts.last().unwrap() < len { starts.len() } else { starts.len() - 1 };
+                // frames that still have bytes to deliver when they fail (the fault loses data)
+                let cand: Vec<usize> = (0..n_frames).filter(|k| starts[*k] < essential).collect();
+                if cand.is_empty() {
+                    continue;
+                }
+                let mut ks: Vec<usize> = if cand.len() <= 6 { cand.clone() } else { let mut v = vec![cand[0], cand[cand.len() - 1], cand[cand.len() - 2]]; v.extend((0..3).map(|_| *g.pick(&cand))); v };
+                ks.sort_unstable();
+                ks.dedup();
+                for k in ks {
+                    let pos_class = if k == 0 { "before-the-first-byte" } else if k + 1 >= n_frames { "in-the-last-frame" } else { "in-between" };
+                    let ek = *g.pick(TRANSPORT_ERROR_KINDS);
+                    let sched = g.below(3);
+                    let mut q = req.clone();
+                    q.framing = Some(Framing {
+                        cuts: cuts.clone(),
+                        pendings: if sched == 0 { vec![] } else { (0..n_frames).map(|_| g.below(2) as u8).collect() },
+                        pending_at_end: 0,
+                        immediate_wake: sched != 2,
+                        error_at: Some(k),
+                        stall_at: None,
+                        error_kind: ek.map(str::to_owned),
+                    });
+                    judge_transport_fault(r, prop, &rt, &cfg, &format!("{kind}/{pclass}"), &q, if streamed { Some(&payload) } else { None }, pos_class);
+                }
+            }
+        }
+    })
+}
+
+/// offset just past the delimiter line that closes the file part of a multipart/form-data body
+fn form_essential_len(req: &RawRequest) -> Option<usize> {
+    let ct = String::from_utf8_lossy(req.get_header("content-type")?).into_owned();
+    let b = ct.split("boundary=").nth(1)?.trim_matches('"').to_owned();
+    let body = &req.body;
+    let find = |from: usize, pat: &[u8]| body[from..].windows(pat.len()).position(|w| w == pat).map(|p| from + p);
+    let file_hdr = find(0, b"name=\"file\"")?;
+    let content = find(file_hdr, b"\r\n\r\n")? + 4;
+    let delim = format!("\r\n--{b}");
+    let end = find(content.saturating_sub(2), delim.as_bytes())?;
+    Some(end + delim.len())
 }
 
 pub fn replay(v: &Value) -> i32 {
